@@ -33,7 +33,7 @@ m("S01", "C04,C10", ZL, "budget_left.append(tmp_u_t / self.w < self.budget_)", "
   note="FixedUncertaintyBudgetManager guard <= instead of <")
 m("S03", "C03", ZL, "                    tmp_theta *= 1 - self.s", "                    tmp_theta *= 1 - self.s\n                    self.theta_ = tmp_theta", occ=1,
   note="VariableUncertainty query leaks theta")
-m("S04", "C10", ZL, "            tmp_u_t = tmp_u_t * ((self.w - 1) / self.w) + s", "            tmp_u_t = tmp_u_t * ((self.w - 1) / self.w)", occ=1,
+m("S04", "C10", ZL, "            tmp_u_t = tmp_u_t * ((self.w - 1) / self.w) + s\n", "            tmp_u_t = tmp_u_t * ((self.w - 1) / self.w)\n", occ=1,
   note="VariableUncertainty update forgets the granted label in the running estimate")
 m("S05", "C03,C10", ZL, "        self.random_state_.set_state(prior_random_state)", "        pass", occ=1,
   note="RandomVariableUncertainty query does not restore the generator")
@@ -57,13 +57,36 @@ m("S18", "C03,C04,C10", SB, "utilities = np.zeros(candidates.shape[0])", "utilit
 
 # ---- selection primitives / pool core: C01 C02 C18
 SEL = "skactiveml/utils/_selection.py"
-m("P01", "C18,C02,C01", SEL, "utilities[best_indices[i]] = np.nan", "utilities[best_indices[i]] = -np.inf", occ=1,
-  note="simple_batch masks with -inf instead of NaN")
-m("P02", "C18,C02", SEL, "batch_utilities[i] = utilities", "batch_utilities[i] = utilities\n", occ=1, note="control whitespace (must NOT be caught)")
+BASE = "skactiveml/base.py"
+m("P01", "C18,C02", SEL, "utilities[tuple(best_indices[i])] = np.nan", "utilities[tuple(best_indices[i])] = -np.inf",
+  note="simple_batch masks the winner with -inf instead of NaN")
+m("P02", "C18", SEL, "batch_utilities[i] = utilities\n", "batch_utilities[i] = utilities \n", note="control: whitespace only (must NOT be caught)")
+m("P03", "C18,C02", SEL, "* (a == np.nanmax(a, **argmax_kwargs, keepdims=True)),", "* (a >= np.nanmax(a, **argmax_kwargs, keepdims=True) - 1e-9),",
+  note="rand_argmax treats near-maxima as maxima")
+m("P04", "C18", SEL, "batch_utilities[i, best_indices[:i]] = np.nan", "batch_utilities[i, best_indices[: i + 1]] = np.nan",
+  note="proportional: the pick of step i is already NaN in row i")
+m("P05", "C18,C01", SEL, "max_batch_size = np.sum(~np.isnan(utilities), dtype=int)", "max_batch_size = np.sum(~np.isnan(utilities), dtype=int) + 1",
+  note="batch size clipped one too high")
+m("P06", "C09,C14", BASE, "ulbd_idx = unlabeled_indices(y, self.missing_label_)", "ulbd_idx = unlabeled_indices(y)",
+  note="candidates=None uses the default sentinel")
+m("P07", "C06", BASE, "self.random_state_ = check_random_state(self.random_state, seed_mult)", "self.random_state_ = check_random_state(self.random_state_ if hasattr(self, 'random_state_') else self.random_state, seed_mult)",
+  note="pool strategies keep a RandomState between queries (still reproducible?)")
+m("P08", "C05,C06", BASE, "seed_mult = int(np.sum(is_unlabeled(y, self.missing_label_))) + 1", "seed_mult = 1", note="seed no longer varies with the number of unlabeled samples (benign for the listed properties? control)")
 
-# ---- labels: C16 / C09
+# ---- labels / aggregation: C16 C17 C12
 LAB = "skactiveml/utils/_label.py"
-ENC = "skactiveml/utils/_label_encoder.py"
+AGG = "skactiveml/utils/_aggregation.py"
+m("L01", "C16", LAB, "        return y.astype(target_type) == missing_label", "        return y == missing_label", note="is_unlabeled compares without casting to the common dtype")
+m("L02", "C17,C12", AGG, "    w[np.logical_or(np.isnan(w), is_unlabeled_y)] = 0", "    w[np.isnan(w)] = 0", note="vote vectors count missing entries as class 0 with weight 1")
+m("L03", "C17", AGG, "        vote_vector = rand_argmax(vote_matrix, random_state, axis=1)", "        vote_vector = np.argmax(vote_matrix, axis=1)", note="majority_vote breaks ties deterministically (allowed? ties arbitrary) (control?)")
+m("L04", "C17", AGG, "y_off = y + np.arange(y.shape[0])[:, None] * n_classes", "y_off = y + np.arange(y.shape[0])[:, None] * max(n_classes, 2)", note="control: same for >= 2 classes; differs for one class")
+
+# ---- classifiers: C11 C12 C13
+CW = "skactiveml/classifier/_wrapper.py"
+m("K01", "C11", BASE, "        P[normalizer == 0, :] = [1 / len(self.classes_)] * len(self.classes_)", "        P[normalizer == 0, :] = 0", note="zero-mass rows stay zero")
+m("K02", "C11,C09", CW, "P_ext[:, class_indices] = 1 if len(class_indices) == 1 else P", "P_ext[:, : len(class_indices)] = 1 if len(class_indices) == 1 else P", note="probability columns of a partially observed class set are left-aligned")
+m("K03", "C11", CW, "        if sum(self._label_counts) == 0:\n            return np.ones([len(X), len(self.classes_)]) / len(self.classes_)", "        if sum(self._label_counts) == 0:\n            return np.ones([len(X), len(self.classes_)])", note="unfitted fallback not normalised")
+m("K04", "C12", CW, "        is_lbld = is_labeled(y, missing_label=self.missing_label_)", "        is_lbld = np.ones(len(y), dtype=bool) if sample_weight is None and False else is_labeled(y, missing_label=self.missing_label_)", note="control: equivalent")
 
 
 def load_extra():
